@@ -123,6 +123,9 @@ def m_len(interp, args, kwargs):
         return wrap(x.length)
     if isinstance(x, SMap):
         raise Unsupported('len of symbolic map')
+    from .pdict import PDict
+    if isinstance(x, PDict):
+        return x.length(interp)
     if isinstance(x, Opaque):
         return interp.reg.call_opaque(interp, x, '__len__', [], {})
     if isinstance(x, Sym):
@@ -294,6 +297,12 @@ def m_tuple(interp, args, kwargs):
         src = interp.resolve(src)
     if isinstance(src, SList):
         from . import seqs
+        from .mlist import MList
+        if isinstance(src, MList):
+            # a snapshot that keeps the list measures (str.join, pyvc.api.Measure) of the mutable list
+            c = src.copy(interp)
+            c.immutable = True
+            return c
         return seqs.frozen(src)
     v = m_list(interp, [src], {})          # (generator expressions / iterators over symbolic sequences)
     if isinstance(v, SList):
@@ -345,6 +354,16 @@ def m_copy(interp, args, kwargs):
         return x
     if isinstance(x, (list, dict, set)):
         return _copy.copy(x)
+    tp = type(x)
+    if not isinstance(x, (Sym, Opaque, type)) and isinstance(getattr(x, '__dict__', None), dict) \
+            and not hasattr(tp, '__copy__') and tp.__reduce_ex__ is object.__reduce_ex__ \
+            and tp.__reduce__ is object.__reduce__ and not hasattr(tp, '__slots__') and '__getstate__' not in tp.__dict__ and '__setstate__' not in tp.__dict__ \
+            and tp.__module__ != 'builtins':
+        # an instance of a plain class: a new instance with the same attribute values (shallow, as copy.copy)
+        y = object.__new__(tp)
+        y.__dict__.update(x.__dict__)
+        interp.note_new_object(y)
+        return y
     raise Unsupported('copy.copy of %s' % type(x).__name__)
 
 
@@ -1643,6 +1662,60 @@ def q_exists(interp, args, kwargs):
     return _quant(interp, args, False)
 
 
+def m_is_item(interp, args, kwargs):
+    """contracts.common.is_item: an element of a symbolic list of objects (a handle) against an object"""
+    item, obj = args
+    from .mlist import handle_of
+    if isinstance(item, (SOpt, SChoice)):
+        item = interp.resolve(item)
+    if isinstance(item, (SInt, int)) and not isinstance(item, bool):
+        h = obj.t if isinstance(obj, SInt) else handle_of(interp, obj)
+        return wrap(to_z3(item) == h)
+    if isinstance(obj, SInt):
+        return wrap(handle_of(interp, item) == obj.t)
+    return item is obj
+
+
+def m_conj(interp, args, kwargs):
+    ts = []
+    for x in interp.iterate(args[0]):
+        t = interp.truth(x)
+        if t is False:
+            return False
+        if t is not True:
+            ts.append(to_z3(t))
+    return wrap(z3.And(*ts)) if ts else True
+
+
+def m_slot(interp, args, kwargs):
+    d, k = args
+    from .pdict import PDict
+    if isinstance(d, PDict):
+        key = d.resolve_key(interp, k)
+        v = d.values.get(key) if key is not None else None
+        return v if v is not None else ()
+    if isinstance(k, Sym):
+        k = interp.resolve(k) if isinstance(k, (SOpt, SChoice)) else k
+    return d.get(k, ())
+
+
+def m_snapshot_lists(interp, args, kwargs):
+    (d,) = args
+    from .pdict import PDict
+    if isinstance(d, PDict):
+        return d.snapshot(interp)
+    return {k: m_list(interp, [v], {}) for k, v in d.items()}
+
+
+def m_all_keys(interp, args, kwargs):
+    from .pdict import PDict
+    out = []
+    for d in args:
+        ks = d.universe if isinstance(d, PDict) else list(d.keys())
+        for k in ks:
+            if k not in out:
+                out.append(k)
+    return out
 def _prefix_fun(interp, args, is_count):
     """sum_prefix(xs, k, f) / count_prefix(xs, k, pred): the value P(k) of the prefix function of the
     sequence, with the definition unfolded at k:  P(0) = 0,  P(k) = P(k-1) + f(xs[k-1])  for 0 < k <= len.
